@@ -1128,6 +1128,15 @@ func (ex *Exec) execInstr(fr *Frame, st *State, ins ssa.Instruction) {
 			panic(unsupported("range over " + xv.T.String()))
 		}
 		fr.regs[x] = Val{T: x.Type(), L: []*Term{xv.Term()}}
+		// start of an iteration: nothing visited yet
+		{
+			mi := mapKeys(xv.T)
+			vkey := "R:" + mi.dom
+			st.set(vkey, Store(st.get(vkey, mi.domSort()), xv.Term(), constN(mi.ks, False)))
+			// number of keys produced so far, and the domain at the start of the iteration
+			st.set("RC:"+mi.dom, Store(st.get("RC:"+mi.dom, ArrS(IntS, BVS(64))), xv.Term(), BVI(0, 64)))
+			st.set("RD:"+mi.dom, st.get(mi.dom, mi.domSort()))
+		}
 	case *ssa.Next:
 		fr.regs[x] = ex.mapNext(fr, st, x)
 	case *ssa.Call:
